@@ -464,6 +464,13 @@ def is_type_compatible(
     incoming_type = _resolve_type(incoming_type, memo)
     required_type = _resolve_type(required_type, memo)
 
+    # Annotated[X, ...] is X here: strip the metadata before the Union rules,
+    # which would otherwise compare the Annotated wrapper with each member
+    if get_origin(incoming_type) is Annotated:
+        incoming_type = get_args(incoming_type)[0]
+    if get_origin(required_type) is Annotated:
+        required_type = get_args(required_type)[0]
+
     # If incoming is TypeVar, we can't know the concrete type without runtime info
     # For now, accept (same as pipefunc)
     if isinstance(incoming_type, TypeVar):
